@@ -195,7 +195,7 @@ def run_w2(res, task):
     tier, seed = task[4], task[5]
     for idx, nl in enumerate(W.w2_circuits(task)):
         if tier == 'quick' and idx % 4 != seed % 4: continue
-        si = idx % len(STYLES)
+        si = (idx // 4 if tier == 'quick' else idx) % len(STYLES)
         b = build(nl, STYLES[si])
         nlines = len(b.circuit.lines)
         dev = list(wsim.delay_plans(nlines, 2 if tier == 'thorough' else 1))[1:]
